@@ -288,7 +288,7 @@ def execute(case: dict) -> dict:
         if lock.locked() or waiting() != 0 or holders:
             viol.append(("not-idle-at-end", {"locked": lock.locked(), "waiting": waiting()}))
 
-    info: dict = {}
+    info: dict = {"stuck_ticks": 600}
     try:
         run(main, config=case["cfg"], info=info)
     except Deadlock:
@@ -323,10 +323,11 @@ def execute(case: dict) -> dict:
 
 def all_cases(tier: str, seed: int):  # noqa: ANN201
     cfgs = ["stock", "eager"]
+    rcfgs = ["stock", "eager"] * 3 + ["uvloop"]  # a share of the random cases on uvloop
     yield from sweep_cases(cfgs)
     rng = random.Random(seed * 9176 + 9)
     for _ in range(60000 if tier == "thorough" else 6000):
-        yield gen_random(rng, cfgs)
+        yield gen_random(rng, rcfgs)
 
 
 def judge(case: dict, col) -> None:  # noqa: ANN001
